@@ -240,6 +240,17 @@ class Exec(StmtMixin, CallMixin):
     def e_List(self, n, st):
         return SList([self.eval(e, st) for e in n.elts])
 
+    def e_Dict(self, n, st):
+        out = {}
+        for k, v in zip(n.keys, n.values):
+            if k is None:
+                raise Unsupported("dict unpacking (line %d)" % n.lineno)
+            kk = self.eval(k, st)
+            if not isinstance(kk, (str, int)):
+                raise Unsupported("dict literal with symbolic key (line %d)" % n.lineno)
+            out[kk] = self.eval(v, st)
+        return out
+
     def e_UnaryOp(self, n, st):
         v = self.eval(n.operand, st)
         if isinstance(n.op, ast.Not):
